@@ -21,7 +21,7 @@ EPS = 2.0 ** -52
 REL = 1e-9
 EPS32 = 2.0 ** -23  # images held as float32: NumPy computes means, products and standard deviations in float32
 REL32 = 2e-5
-DT = {"f8": np.float64, "f4": np.float32, "i8": np.int64, "i4": np.int32, "i2": np.int16, "u2": np.uint16, "u1": np.uint8}
+DT = {"f8": np.float64, "f4": np.float32, "i8": np.int64, "u8": np.uint64, "i4": np.int32, "i2": np.int16, "u2": np.uint16, "u1": np.uint8}
 # Behaviour the property text does not reach (the value returned as "probability" for n = 0 shuffles) is compared with
 # the model and the outcome recorded as a feature; it is judged (impl-vs-model) only with this switch on.
 JUDGE_OUTSIDE_PROPERTY = False
@@ -307,7 +307,9 @@ class C14(Prop):
                "rational test in evaluate, also for the two affine variants); otherwise undetermined",
                "float32 images: NumPy evaluates means, products and standard deviations in float32; an r that involves a float32 image is "
                "compared at 2e-5 + 64*2^-23*(E|xy| + E|x|E|y|)/(sx sy), a Manders ratio of a float32 image at 2e-5 relative, and the ICQ is "
-               "undetermined when a non-zero deviation is below 1e-4 of the scale; integer images are judged like float64 ones, also when a "
+               "undetermined when a non-zero deviation is below 1e-4 of the scale; integer images (8..64 bit, values up to 2^41: exactly "
+               "representable in float64, and a common power-of-two unit commutes with every float operation, so the float64 tolerance of the "
+               "unscaled values applies) are judged like float64 ones, also when a "
                "product x*y does not fit their integer type (feature dtype:integer-product-exceeds-the-type; fixed in 1c7bcd4)",
                "large shuffles: Python encodes (run lengths, integer lists) and snapshots; the relations are evaluated by the Lean driver in "
                "their quasi-linear forms, proved equal to the reference forms (spec_outside_fast, spec_blocks_fast) and re-checked against "
@@ -372,8 +374,8 @@ class C14(Prop):
             # element type of the two images (drawn first: integer types want integer values that fit)
             dtype = None
             if rng.random() < 0.4:
-                d = rng.choice(["f4", "f4", "f4", "i8", "i4", "i2", "u2", "u1"])
-                dtype = [d, d] if rng.random() < 0.6 else [d, rng.choice(["f8", "f4", "i8", "i4", "u2", "u1"])]
+                d = rng.choice(["f4", "f4", "f4", "i8", "i8", "u8", "i4", "i2", "u2", "u1"])
+                dtype = [d, d] if rng.random() < 0.6 else [d, rng.choice(["f8", "f4", "i8", "u8", "i4", "u2", "u1"])]
                 if rng.random() < 0.5:
                     dtype.reverse()
             ints = dtype is not None and any(d[0] in "iu" for d in dtype)
@@ -399,6 +401,15 @@ class C14(Prop):
                     "a_pow": rng.choice([-3, 0, 1, 5]), "b": rng.choice([0, 1, -7, 1000]), "gen": [style]}
             if dtype is not None:
                 case["dtype"] = dtype
+                wide = [d in ("i8", "u8") for d in dtype]
+                if ints and any(wide) and rng.random() < 0.7:
+                    # 64-bit integer images with values 2^31 .. 2^41: the pixel products exceed 2^63 (2^64); with a narrower partner
+                    # the two images get their own power-of-two unit so that each fits its type
+                    if all(wide):
+                        case["spow"] = rng.choice([26, 31, 34])
+                    else:
+                        case["spow"] = 0
+                        case["xpow"] = [rng.choice([31, 34, 38]) if w else rng.choice([0, 10, 20] if d in ("i4", "f8", "f4") else [0, 7]) for w, d in zip(wide, dtype)]
             elif rng.random() < 0.4:  # extreme units: image x times 2^ex, image y times 2^ey
                 case["xpow"] = self.gen_xpow(rng)
             # memory layout of the two images, independently; exact zeros as negative zeros
@@ -746,6 +757,16 @@ class C14(Prop):
                                               (2, [6, 7], "equal"), (3, [9, 9], "affine"))):
             yield self.gen_prob_separated(random.Random(1400 + i), b=b, shape=shape, n=6, pseed=70 + i, kind=kind)
 
+        # 64-bit integer images whose pixel products exceed 2^63 / 2^64, alone and with a narrower partner
+        for i, (dt, spow, xpow) in enumerate(((["i8", "i8"], 31, None), (["u8", "u8"], 34, None), (["i8", "u8"], 26, None),
+                                              (["i8", "i4"], 0, [38, 20]), (["u2", "u8"], 0, [7, 34]), (["u8", "f8"], 0, [31, 10]))):
+            c = {"kind": "coeff", "shape": [8] if i % 2 else [2, 4], "x": [3, 17, 41, 8, 55, 23, 30, 12], "y": [5, 20, 38, 11, 60, 19, 33, 9],
+                 "den": 1, "offx": 0, "offy": [0, 100][i % 2], "spow": spow, "tx": [None, [17, 1]][i % 2], "ty": None, "a_pow": [1, 0, -3][i % 3],
+                 "b": [3, 0, -7][i % 3], "dtype": dt, "lay": ["C", "C"], "negzero": False, "gen": ["corr"]}
+            if xpow:
+                c["xpow"] = xpow
+            yield c
+
     # ------------------------------------------------------------------ evaluation
     def evaluate(self, case, ctx):
         with warnings.catch_warnings(), np.errstate(all="ignore"):
@@ -802,9 +823,10 @@ class C14(Prop):
                 return bool(np.all(np.isfinite(c)) and np.array_equal(c.astype(np.float64), arr) and
                             (thr is None or float(np.float32(thr)) == thr))
             info = np.iinfo(t)
-            return bool(np.all(arr == np.rint(arr)) and arr.min() >= info.min and arr.max() <= info.max)
+            return bool(np.all(np.isfinite(arr)) and np.all(arr == np.rint(arr)) and int(arr.min()) >= info.min and int(arr.max()) <= info.max)
 
-        dts = ["f8" if extreme or not holds(v, d, t) else d for v, d, t in ((x, dts[0], tx), (y, dts[1], ty))]
+        far = extreme and max(abs(ex), abs(ey)) > 64  # units beyond 2^+-64 are the float64 range classes; small ones scale integer images
+        dts = ["f8" if far or not holds(v, d, t) else d for v, d, t in ((x, dts[0], tx), (y, dts[1], ty))]
         xa, ya = x.astype(DT[dts[0]]), y.astype(DT[dts[1]])
         negzero = bool(case.get("negzero")) and not extreme
         if negzero:  # exact zeros as negative zeros (images and thresholds)
